@@ -271,6 +271,14 @@ class Run:
             'not_decided': list(not_decided),
         }
         cov.update(self.notes)
+        if self.tier == 'thorough' and not os.environ.get('VERIF_SELFTEST_CHILD'):
+            fm = feature_matrix(self.prop)
+            cov['feature_matrix'] = fm['summary']
+            for line in fm['violation_lines']:
+                print(line)
+            if fm['exit'] == 1:
+                code = 1
+                nviol += fm['violations']
         if self.tier == 'thorough':
             import selftest
             st = selftest.run_corpus(self.prop)
@@ -299,6 +307,28 @@ class Run:
         print('%s %s: %d obligations, %d discharged, %d violations, %d roots, %.1fs' % (
             self.prop, self.tier, n, n - len(viol), nviol, len(self.roots), time.time() - self.t0))
         return code
+
+
+def feature_matrix(prop):
+    """thorough tier: the same rules on the tree built with every optional feature that builds offline"""
+    import subprocess
+    import tempfile
+    import shutil
+    import re
+    work = tempfile.mkdtemp(prefix='verif-fm-')
+    try:
+        env = dict(os.environ, VERIF_FEATURES_EXTRA='swizzle,mint,serde,bytemuck,rand', VERIF_EVIDENCE_DIR=os.path.join(work, 'ev'),
+                   VERIF_OUT_DIR=os.path.join(VERIF, 'out', 'features-all'), VERIF_SELFTEST_CHILD='1')
+        p = subprocess.run([os.path.join(VERIF, 'check'), prop, 'quick'], env=env, capture_output=True, text=True, timeout=1800)
+        lines = [l for l in p.stdout.split('\n') if l.startswith('VIOLATION') or l.startswith('  ')]
+        m = re.search(r'(\d+) obligations, (\d+) discharged, (\d+) violations', p.stdout)
+        summ = {'features': 'swizzle,mint,serde,bytemuck,rand', 'exit': p.returncode,
+                'obligations': int(m.group(1)) if m else None, 'discharged': int(m.group(2)) if m else None}
+        if p.returncode not in (0, 1):
+            summ['error'] = p.stdout[-400:]
+        return {'summary': summ, 'exit': p.returncode, 'violations': int(m.group(3)) if m else 0, 'violation_lines': lines if p.returncode == 1 else []}
+    finally:
+        shutil.rmtree(work, ignore_errors=True)
 
 
 def _safe(k):
@@ -353,6 +383,29 @@ class Harness:
     def src(self):
         return '\n'.join(self.lines)
 
+    def monomorphise(self, types, bound='<S: BaseNum>', kinds=('value', 'post')):
+        """re-instantiate every root with the given generic bound at concrete scalar types (same specs):
+        the parametricity argument is cross-checked by letting rustc select the impls for real types"""
+        import re
+        added = []
+        for line in list(self.lines):
+            m = re.match(r'pub fn (\w+)(<[^(]*>)(\(.*)$', line)
+            if not m or m.group(2) != bound:
+                continue
+            name = m.group(1)
+            spec, kw = self.specs[name]
+            if spec[0] not in kinds:
+                continue
+            for ty in types:
+                rest = re.sub(r'\bS\b', ty, m.group(3))
+                n2 = '%s__%s' % (name, ty)
+                self.lines.append('pub fn %s%s' % (n2, rest))
+                kw2 = dict(kw)
+                kw2['allow_panics'] = 'arith'
+                self.specs[n2] = (spec, kw2)
+                added.append(n2)
+        return added
+
 
 def single_ret(run, S, name, allow_panics=False):
     """The root must summarise to exactly one Return leaf (no Top).  Returns (root, leaf) or None."""
@@ -369,6 +422,9 @@ def single_ret(run, S, name, allow_panics=False):
         return None
     rets = [(g, l) for g, l in ls if l['k'] == 'ret']
     pans = [(g, l) for g, l in ls if l['k'] == 'panic']
+    if allow_panics == 'arith' and any(not (l['why'].startswith('Overflow') or l['why'] in ('DivisionByZero', 'RemainderByZero', 'OverflowNeg')) for g, l in pans):
+        run.ob('%s:%s:panics' % (run.prop, name), False, rule='straight-line', expected='only arithmetic overflow / division-by-zero panics', found=sorted({l['why'] for g, l in pans}), where=r.get('span'))
+        return None
     if len(rets) != 1 or (pans and not allow_panics):
         run.ob('%s:%s:shape' % (run.prop, name), False, rule='straight-line', expected='one Return leaf, no Panic',
                found='%d Return, %d Panic leaves' % (len(rets), len(pans)), where=r.get('span'))
@@ -480,9 +536,9 @@ def _run_one(run, S, name, spec, kw, custom):
     if True:
         kind = spec[0]
         if kind == 'value':
-            check_value(run, S, name, spec[1], rule=kw.get('rule', 'K3 ring conformance'), field_div=kw.get('field_div'))
+            check_value(run, S, name, spec[1], rule=kw.get('rule', 'K3 ring conformance'), field_div=kw.get('field_div'), allow_panics=kw.get('allow_panics', False))
         elif kind == 'post':
-            check_value(run, S, name, spec[2] if len(spec) > 2 else None, post=spec[1], rule=kw.get('rule', 'K3 ring conformance'), field_div=kw.get('field_div'))
+            check_value(run, S, name, spec[2] if len(spec) > 2 else None, post=spec[1], rule=kw.get('rule', 'K3 ring conformance'), field_div=kw.get('field_div'), allow_panics=kw.get('allow_panics', False))
         elif kind == 'panic':
             all_panic(run, S, name)
         elif custom and kind in custom:
